@@ -21,6 +21,10 @@ class Unsupported(Exception):
     pass
 
 
+class FuelExhausted(Exception):
+    """a loop with a symbolic exit test ran past the tracer's decision budget"""
+
+
 # --------------------------------------------------------------------------
 # graph
 # --------------------------------------------------------------------------
@@ -48,6 +52,7 @@ class Tracer:
         self.schedule = []
         self.pos = 0
         self.path = []           # (boolnode, taken)
+        self.fuel = 64           # max symbolic decisions per path
 
     def decide(self, cond):
         # same condition decided before on this path -> same answer
@@ -56,6 +61,8 @@ class Tracer:
                 return t
             if c == ("not", cond) or ("not", c) == cond:
                 return not t
+        if self.pos >= self.fuel:
+            raise FuelExhausted("more than %d symbolic decisions on one path" % self.fuel)
         if self.pos < len(self.schedule):
             t = self.schedule[self.pos]
         else:
@@ -120,6 +127,12 @@ class Sym:
         return None
 
     def _bin(self, op, other, swap=False):
+        if swap and isinstance(other, _np.ndarray) and other.dtype == object:
+            # `objarray op Sym`: numpy defers to the reflected method (array priority); elementwise
+            out = _np.empty(other.shape, dtype=object)
+            for idx in _np.ndindex(other.shape):
+                out[idx] = lift(other[idx])._bin(op, self)
+            return out
         try:
             o = lift(other)
         except Unsupported:
@@ -491,6 +504,11 @@ def _einsum(sub, *ops):
             raise Unsupported("einsum rank mismatch")
         for ch, d in zip(s, o.shape):
             if dims.setdefault(ch, d) != d:
+                if d == 1:
+                    continue            # numpy's einsum broadcasts length-1 axes
+                if dims[ch] == 1:
+                    dims[ch] = d
+                    continue
                 raise Unsupported("einsum dim mismatch")
     summed = [ch for ch in dims if ch not in out]
     res = _np.empty([dims[ch] for ch in out], dtype=object)
@@ -501,7 +519,7 @@ def _einsum(sub, *ops):
             env.update(zip(summed, sidx))
             term = None
             for s, o in zip(ins, ops):
-                v = o[tuple(env[ch] for ch in s)]
+                v = o[tuple(env[ch] if o.shape[k] != 1 else 0 for k, ch in enumerate(s))]
                 term = v if term is None else term * v
             acc = term if acc is None else acc + term
         res[oidx] = acc
@@ -654,7 +672,7 @@ class NpShim:
         return _np.moveaxis(c, 0, axisc)
 
     @staticmethod
-    def allclose(a, b):
+    def allclose(a, b, equal_nan=False):   # equal_nan: no NaN over the reals
         # |a - b| <= atol + rtol * |b|  with numpy's defaults
         d = abs(lift(a) - lift(b))
         return d <= K("1e-8") + K("1e-5") * abs(lift(b))
@@ -804,6 +822,9 @@ def run_paths(tracer, fn, max_paths=400):
                 outcome = "ok"
             except Unsupported:
                 raise
+            except FuelExhausted:
+                val = None
+                outcome = "fuel"
             except Exception as e:  # the traced code raised: a path outcome
                 val = None
                 outcome = type(e).__name__
